@@ -59,7 +59,7 @@ def gen_racepub(rng, tier, n):
     return [["kind mem", "plan - -", "racepub %d %d" % (rng.randint(2, 8), rng.choice([100, 300]))] for _ in range(n)]
 
 def nontrivial(prop, lines, impl):
-    if prop == "C09":
+    if prop == "C09" or any(l.startswith("racepub") for l in lines):
         return bool(impl) and impl[0] == "racepub ok"
     return bool(impl) and any(l.startswith("id ") and "delivered=-" not in l for l in impl) and any(l == "restart" for l in lines[:-3])
 
